@@ -71,6 +71,13 @@ func runPipelineBehaviours(c *ev.Ctx, unpubOn bool, behaviours [][]pipe.Step, no
 	var ends []int
 	total := 0
 	nt := 0
+	var inflated, inflatedResolved int64
+	defer func() {
+		prevR, _ := c.Cov.Extra["of_which_resolved_after_being_stored"].(int64)
+		c.Cov.Extra["of_which_resolved_after_being_stored"] = prevR + inflatedResolved
+		prev, _ := c.Cov.Extra["updates_exceeding_the_size_limit_once_reserialised"].(int64)
+		c.Cov.Extra["updates_exceeding_the_size_limit_once_reserialised"] = prev + inflated
+	}()
 	for bi, h := range behaviours {
 		p, err := pipe.New(unpubOn, KeyTypeForSeed(c.Seed))
 		if err != nil {
@@ -94,6 +101,26 @@ func runPipelineBehaviours(c *ev.Ctx, unpubOn bool, behaviours [][]pipe.Step, no
 			}
 		}
 		p.Close()
+		inflated += int64(p.Inflated)
+		// how many of them were stored by the observer and then resolved
+		for _, id := range p.InflatedIDs {
+			stored := false
+			for _, e := range p.Events {
+				if e["ev"] == "Observe" {
+					if st, ok := e["store"].([]map[string]interface{}); ok {
+						for _, o := range st {
+							if o["id"] == id {
+								stored = true
+							}
+						}
+					}
+				}
+				if stored && e["ev"] == "ResolveAll" {
+					inflatedResolved++
+					break
+				}
+			}
+		}
 		all.WriteString(p.NDJSON())
 		all.WriteString(`{"ev":"Reset"}` + "\n")
 		total += len(p.Events) + 1
